@@ -402,7 +402,7 @@ func init() {
 			"compared with a Go slice model; distinct = (sequence kind, element kind) cells",
 		NumCases: func(tier string) int {
 			if tier == "thorough" {
-				return 60000
+				return 12000
 			}
 			return 2500
 		},
